@@ -592,72 +592,11 @@ Proof. revert r. induction l as [|x l IH]; intros r H; cbn [mapM] in *; [exact H
   destruct (read_prop root grp x) as [y|e] eqn:E; [|discriminate]. apply read_prop_h_ok in E. rewrite E.
   destruct (mapM (read_prop root grp) l) as [ys|e]; [|discriminate]. rewrite (IH ys eq_refl). exact H. Qed.
 
-Lemma oneshot_core rd nn en nm em :
-  NoDup (names_or nn (rd_nnames rd)) -> NoDup (names_or en (rd_enames rd)) ->
-  snd (step (sm_init rd) (RNode nn)) = Ok None -> snd (step (sm_init rd) (REdge en)) = Ok None ->
-  results (sm_init rd) [RNode nn; REdge en; Build nm em] = [Ok None; Ok None; rmap Some (build rd nn en nm em)].
-Proof.
-  intros Hnn Hen Hrn Hre.
-  change [RNode nn; REdge en; Build nm em] with ([RNode nn; REdge en] ++ [Build nm em]).
-  rewrite results_app.
-  destruct (reachable_held rd [RNode nn; REdge en]) as [Hr [Hkn [Hke [_ [_ Hs]]]]]. cbn zeta in *.
-  set (s2 := final (sm_init rd) [RNode nn; REdge en]) in *.
-  assert (H12 : results (sm_init rd) [RNode nn; REdge en] = [Ok None; Ok None]).
-  { rewrite !results_cons. rewrite Hrn.
-    rewrite (read_result_indep _ (sm_init rd) (REdge en)) by (rewrite ?step_rd; reflexivity). rewrite Hre. reflexivity. }
-  rewrite H12. cbn [app]. rewrite results_cons. cbn [step snd results run].
-  rewrite build_held_build by exact Hs. rewrite Hr, Hkn, Hke.
-  cbn [flat_map nreq ereq app]. rewrite !app_nil_r.
-  assert (Hpn : ok_prefix (rd_root rd) path_NODES (names_or nn (rd_nnames rd)) = names_or nn (rd_nnames rd)).
-  { cbn [step snd sm_init rs_rd rs_np] in Hrn. eapply read_loop_ok_surj.
-    destruct (snd (read_loop (rd_root rd) path_NODES (names_or nn (rd_nnames rd)) [])) as [[]|] eqn:E; [exact E | discriminate]. }
-  assert (Hpe : ok_prefix (rd_root rd) path_EDGES (names_or en (rd_enames rd)) = names_or en (rd_enames rd)).
-  { cbn [step snd sm_init rs_rd rs_ep] in Hre. eapply read_loop_ok_surj.
-    destruct (snd (read_loop (rd_root rd) path_EDGES (names_or en (rd_enames rd)) [])) as [[]|] eqn:E; [exact E | discriminate]. }
-  rewrite Hpn, Hpe, !first_occ_nodup by assumption.
-  rewrite <- build_names_or. reflexivity.
-Qed.
-
-Theorem sm_oneshot rd nn en nm em g :
-  NoDup (names_or nn (rd_nnames rd)) -> NoDup (names_or en (rd_enames rd)) ->
-  (build rd nn en nm em = Ok g <->
-   results (sm_init rd) [RNode nn; REdge en; Build nm em] = [Ok None; Ok None; Ok (Some g)]).
-Proof.
-  intros Hnn Hen. split.
-  - intro H. rewrite oneshot_core; auto; [rewrite H; reflexivity| |].
-    + rewrite build_names_or in H. unfold build in H.
-      destruct (mapM (read_prop (rd_root rd) path_NODES) (names_or nn (rd_nnames rd))) as [zn|e] eqn:E; [|discriminate].
-      cbn [step snd sm_init rs_rd rs_np]. rewrite read_loop_res, (mapM_h_of_read _ _ _ _ E). reflexivity.
-    + rewrite build_names_or in H. unfold build in H.
-      destruct (mapM (read_prop (rd_root rd) path_NODES) (names_or nn (rd_nnames rd))) as [zn|e]; [|discriminate].
-      destruct (mapM (read_prop (rd_root rd) path_EDGES) (names_or en (rd_enames rd))) as [ze|e] eqn:E; [|discriminate].
-      cbn [step snd sm_init rs_rd rs_ep]. rewrite read_loop_res, (mapM_h_of_read _ _ _ _ E). reflexivity.
-  - intro H.
-    assert (H1 : snd (step (sm_init rd) (RNode nn)) = Ok None) by (rewrite !results_cons in H; injection H as Ha _ _; exact Ha).
-    assert (H2 : snd (step (sm_init rd) (REdge en)) = Ok None).
-    { rewrite !results_cons in H. injection H as _ Hb _.
-      rewrite (read_result_indep _ (fst (step (sm_init rd) (RNode nn))) (REdge en)) by (rewrite ?step_rd; reflexivity). exact Hb. }
-    rewrite (oneshot_core rd nn en nm em Hnn Hen H1 H2) in H. inversion H as [Hg].
-    destruct (build rd nn en nm em) as [g'|e]; cbn [rmap] in Hg; [inversion Hg; reflexivity | discriminate].
-Qed.
-
 (* read_to_memory is the composition init; read all / the named; build without masks *)
 Lemma compose_results (x1 x2 : res unit) (b : res mgraph) g :
   [rmap (fun _ : unit => @None mgraph) x1; rmap (fun _ : unit => @None mgraph) x2; rmap Some b] = [Ok None; Ok None; Ok (Some g)] <->
   rbind (rmap (fun _ : unit => @None mgraph) x1) (fun _ => rbind (rmap (fun _ : unit => @None mgraph) x2) (fun _ => b)) = Ok g.
 Proof. destruct x1 as [[]|e1], x2 as [[]|e2], b as [g'|e3]; cbn; split; intro H; try discriminate; inversion H; reflexivity. Qed.
-
-Theorem read_to_memory_sm_eq k s v nn en g :
-  (forall rd, reader_init k s v = Ok rd ->
-     NoDup (names_or nn (rd_nnames rd)) /\ NoDup (names_or en (rd_enames rd))) ->
-  (read_to_memory k s v nn en = Ok g <-> read_to_memory_sm k s v nn en = Ok g).
-Proof.
-  intro Hnd. unfold read_to_memory, read_to_memory_sm.
-  destruct (reader_init k s v) as [rd|e] eqn:Ei; cbn [rbind]; [|tauto].
-  destruct (Hnd rd eq_refl) as [Hnn Hen].
-  rewrite (sm_oneshot rd nn en None None g Hnn Hen). rewrite !results_cons. cbn [results run].
-  cbn [step snd fst]. apply compose_results.
-Qed.
 
 (* ---------- a concrete reader for the witnesses ---------- *)
 Definition sm_ex_store : znode :=
@@ -704,3 +643,182 @@ Theorem reachable_commute rd ops1 ops2 nm em g1 :
 Proof. intros Hn He.
   assert (Hse : state_equiv (final (sm_init rd) ops1) (final (sm_init rd) ops2)) by (apply reads_order_irrelevant; assumption).
   split; [exact Hse|]. apply build_equiv; auto; apply final_sinv; apply sinv_init. Qed.
+
+(* ---------- duplicates in a one-shot name list: Read.build treats them as the object does ---------- *)
+Lemma fold_add_in : forall l acc x, In x (fold_left add_name l acc) <-> In x acc \/ In x l.
+Proof. induction l as [|n r IH]; intros acc x; cbn [fold_left]; [cbn; tauto|].
+  rewrite IH. unfold add_name. destruct (smem n acc) eqn:E.
+  - apply smem_In in E. cbn. split; [tauto|]. intros [H|[<-|H]]; auto.
+  - rewrite in_app_iff. cbn. tauto. Qed.
+
+Lemma fold_add_nodup_gen : forall l acc, NoDup acc -> NoDup (fold_left add_name l acc).
+Proof. induction l as [|n r IH]; intros acc H; cbn [fold_left]; [exact H|]. apply IH. apply add_name_nodup. exact H. Qed.
+
+Lemma first_occ_in l x : In x (first_occ l) <-> In x l.
+Proof. unfold first_occ. rewrite fold_add_in. cbn. tauto. Qed.
+Lemma first_occ_is_nodup l : NoDup (first_occ l).
+Proof. apply fold_add_nodup_gen. constructor. Qed.
+
+Lemma akeys_fold_aset {V} : forall (ps acc : list (string * V)),
+  akeys (fold_left (fun a kv => aset (fst kv) (snd kv) a) ps acc) = fold_left add_name (akeys ps) (akeys acc).
+Proof. induction ps as [|[k v] r IH]; intros acc; [reflexivity|].
+  change (akeys ((k, v) :: r)) with (k :: akeys r). cbn [fold_left fst snd].
+  rewrite IH, akeys_aset. reflexivity. Qed.
+
+Lemma pick_suffix (D1 D2 : props) : NoDup (akeys (D1 ++ D2)) -> pick (akeys D2) (D1 ++ D2) = D2.
+Proof. revert D1. induction D2 as [|[k v] r IH]; intros D1 H; [reflexivity|].
+  cbn [akeys map fst pick flat_map].
+  assert (Hl : alookup k (D1 ++ (k, v) :: r) = Some v).
+  { apply alookup_in_nodup; [exact H|]. apply in_or_app. right. left. reflexivity. }
+  rewrite Hl. cbn [app]. f_equal.
+  replace (D1 ++ (k, v) :: r) with ((D1 ++ [(k, v)]) ++ r) in * by (rewrite <- app_assoc; reflexivity).
+  apply IH. exact H. Qed.
+
+Lemma pick_self (D : props) : NoDup (akeys D) -> pick (akeys D) D = D.
+Proof. intro H. exact (pick_suffix [] D H). Qed.
+
+(* load_props_pick for any mask *)
+Lemma load_props_pick_m root grp pmd m all names ps :
+  load_props root grp all pmd m = Ok ps -> NoDup names -> (forall n, In n names -> In n all) ->
+  load_props root grp names pmd m = Ok (pick names (dict_of ps)).
+Proof.
+  intros Hall Hnd Hsub.
+  set (f := fun name => (rbind (read_prop root grp name) (fun zp =>
+               match alookup name pmd with
+               | None => Err KeyError
+               | Some pm => rbind (load_prop zp m pm) (fun p => Ok (name, p))
+               end))).
+  assert (Hfst : forall n y, f n = Ok y -> fst y = n).
+  { intros n y. unfold f. destruct (read_prop root grp n); cbn [rbind]; [|discriminate].
+    destruct (alookup n pmd); [|discriminate]. destruct (load_prop _ m _); cbn [rbind]; [|discriminate].
+    intro H. inversion H. reflexivity. }
+  change (mapM f all = Ok ps) in Hall. destruct (mapM_in f all ps Hall) as [H1 H2].
+  set (F := fun k => match f k with Ok y => Some (snd y) | Err _ => None end).
+  assert (HF : forall k v, In (k, v) ps -> F k = Some v).
+  { intros k v Hin. destruct (H2 _ Hin) as [x [_ Hfx]]. pose proof (Hfst _ _ Hfx) as Hk. cbn in Hk. subst x.
+    unfold F. rewrite Hfx. reflexivity. }
+  change (mapM f names = Ok (pick names (dict_of ps))). apply mapM_pick. intros n Hn.
+  destruct (H1 n (Hsub n Hn)) as [[k p] [Hfn Hin]]. pose proof (Hfst _ _ Hfn) as Hk. cbn in Hk. subst k.
+  exists p. split; [exact Hfn|]. unfold dict_of. rewrite (alookup_fold_fun F) by exact HF.
+  assert (Hm : smem n (akeys ps) = true) by (apply smem_In; apply (in_map fst) in Hin; exact Hin).
+  rewrite Hm. unfold F. rewrite Hfn. reflexivity.
+Qed.
+
+Lemma load_props_dedupe root grp pmd m names ps :
+  load_props root grp names pmd m = Ok ps ->
+  load_props root grp (first_occ names) pmd m = Ok (dict_of ps) /\ dict_of (dict_of ps) = dict_of ps.
+Proof. intro H.
+  assert (Hk : akeys (dict_of ps) = first_occ names).
+  { unfold dict_of. rewrite akeys_fold_aset. destruct (load_props_spec _ _ _ _ _ _ H) as [Hk _]. rewrite Hk. reflexivity. }
+  assert (Hnd : NoDup (akeys (dict_of ps))) by (rewrite Hk; apply first_occ_is_nodup).
+  split; [|apply dict_of_nodup; exact Hnd].
+  rewrite (load_props_pick_m _ _ _ _ _ (first_occ names) _ H (first_occ_is_nodup _)) by (intros n Hn; apply first_occ_in; exact Hn).
+  rewrite <- Hk. rewrite pick_self by exact Hnd. reflexivity. Qed.
+
+Lemma load_props_dedupe_ok root grp pmd m names :
+  is_ok (load_props root grp (first_occ names) pmd m) = true -> is_ok (load_props root grp names pmd m) = true.
+Proof. unfold load_props. intro H.
+  match type of H with is_ok (mapM ?f _) = true => set (f0 := f) in * end.
+  destruct (mapM f0 (first_occ names)) as [r|e] eqn:E; [|discriminate].
+  destruct (mapM_in _ _ _ E) as [H1 _].
+  destruct (mapM_all_ok f0 names) as [r' Hr'].
+  - intros x Hx. destruct (H1 x (proj2 (first_occ_in names x) Hx)) as [y [Hy _]]. eauto.
+  - rewrite Hr'. reflexivity. Qed.
+
+Lemma mapM_dedupe_ok {B} (f : string -> res B) names : is_ok (mapM f names) = is_ok (mapM f (first_occ names)).
+Proof.
+  assert (Hsub : forall a b, (forall x, In x b -> In x a) -> is_ok (mapM f a) = true -> is_ok (mapM f b) = true).
+  { intros a b Hab Ha. destruct (mapM f a) as [r|e] eqn:E; [|discriminate]. destruct (mapM_in _ _ _ E) as [H1 _].
+    destruct (mapM_all_ok f b) as [r' Hr']; [|rewrite Hr'; reflexivity].
+    intros x Hx. destruct (H1 x (Hab x Hx)) as [y [Hy _]]. eauto. }
+  destruct (is_ok (mapM f names)) eqn:E1.
+  - symmetry. apply (Hsub names); [intros x; apply first_occ_in | exact E1].
+  - destruct (is_ok (mapM f (first_occ names))) eqn:E2; [|reflexivity].
+    rewrite (Hsub (first_occ names) names) in E1; [discriminate | intros x Hx; apply first_occ_in; exact Hx | exact E2]. Qed.
+
+Lemma prune_first_occ pmd names : prune pmd (first_occ names) = prune pmd names.
+Proof. unfold prune. apply filter_ext. intros [k v]. cbn [fst].
+  destruct (smem k names) eqn:E.
+  - apply smem_In. apply first_occ_in. apply smem_In. exact E.
+  - destruct (smem k (first_occ names)) eqn:E2; [|reflexivity]. apply (proj1 (smem_In _ _)) in E2. apply (proj1 (first_occ_in _ _)) in E2.
+    apply (proj2 (smem_In _ _)) in E2. congruence. Qed.
+
+Theorem build_dedupe rd nn en nm em g :
+  build rd (Some nn) (Some en) nm em = Ok g <-> build rd (Some (first_occ nn)) (Some (first_occ en)) nm em = Ok g.
+Proof.
+  unfold build.
+  pose proof (mapM_dedupe_ok (read_prop (rd_root rd) path_NODES) nn) as Hmn.
+  pose proof (mapM_dedupe_ok (read_prop (rd_root rd) path_EDGES) en) as Hme.
+  destruct (mapM (read_prop (rd_root rd) path_NODES) nn) as [zn|e1]; destruct (mapM (read_prop (rd_root rd) path_NODES) (first_occ nn)) as [zn'|e1'];
+    cbn [is_ok] in Hmn; try discriminate; cbn [rbind]; [|split; discriminate].
+  destruct (mapM (read_prop (rd_root rd) path_EDGES) en) as [ze|e2]; destruct (mapM (read_prop (rd_root rd) path_EDGES) (first_occ en)) as [ze'|e2'];
+    cbn [is_ok] in Hme; try discriminate; cbn [rbind]; [|split; discriminate].
+  rewrite !prune_first_occ.
+  pose proof (load_props_dedupe_ok (rd_root rd) path_NODES (md_nprops (rd_md rd)) nm nn) as Hon.
+  destruct (load_props (rd_root rd) path_NODES nn (md_nprops (rd_md rd)) nm) as [nps|e3] eqn:Enp.
+  - destruct (load_props_dedupe _ _ _ _ _ _ Enp) as [Hn1 Hn2]. rewrite Hn1. cbn [rbind].
+    match goal with |- context [load_props _ path_EDGES en _ ?m] => set (em' := m) end.
+    pose proof (load_props_dedupe_ok (rd_root rd) path_EDGES (md_eprops (rd_md rd)) em' en) as Hoe.
+    destruct (load_props (rd_root rd) path_EDGES en (md_eprops (rd_md rd)) em') as [eps|e4] eqn:Eep.
+    + destruct (load_props_dedupe _ _ _ _ _ _ Eep) as [He1 He2]. rewrite He1. cbn [rbind]. rewrite Hn2, He2. tauto.
+    + cbn [rbind]. destruct (load_props (rd_root rd) path_EDGES (first_occ en) (md_eprops (rd_md rd)) em') as [eps'|e4'].
+      * cbn [is_ok] in Hoe. specialize (Hoe eq_refl). discriminate.
+      * cbn [rbind]. split; discriminate.
+  - cbn [rbind]. destruct (load_props (rd_root rd) path_NODES (first_occ nn) (md_nprops (rd_md rd)) nm) as [nps'|e3'].
+    + cbn [is_ok] in Hon. specialize (Hon eq_refl). discriminate.
+    + cbn [rbind]. split; discriminate.
+Qed.
+
+Lemma oneshot_core_gen rd nn en nm em :
+  snd (step (sm_init rd) (RNode nn)) = Ok None -> snd (step (sm_init rd) (REdge en)) = Ok None ->
+  results (sm_init rd) [RNode nn; REdge en; Build nm em] =
+  [Ok None; Ok None; rmap Some (build rd (Some (first_occ (names_or nn (rd_nnames rd)))) (Some (first_occ (names_or en (rd_enames rd)))) nm em)].
+Proof.
+  intros Hrn Hre.
+  change [RNode nn; REdge en; Build nm em] with ([RNode nn; REdge en] ++ [Build nm em]).
+  rewrite results_app.
+  assert (H12 : results (sm_init rd) [RNode nn; REdge en] = [Ok None; Ok None]).
+  { rewrite !results_cons. rewrite Hrn.
+    rewrite (read_result_indep _ (sm_init rd) (REdge en)) by (rewrite ?step_rd; reflexivity). rewrite Hre. reflexivity. }
+  rewrite H12. cbn [app]. rewrite results_cons. cbn [step snd results run].
+  rewrite reachable_build. cbn [flat_map nreq ereq app]. rewrite !app_nil_r.
+  assert (Hpn : ok_prefix (rd_root rd) path_NODES (names_or nn (rd_nnames rd)) = names_or nn (rd_nnames rd)).
+  { cbn [step snd sm_init rs_rd rs_np] in Hrn. eapply read_loop_ok_surj.
+    destruct (snd (read_loop (rd_root rd) path_NODES (names_or nn (rd_nnames rd)) [])) as [[]|] eqn:E; [exact E | discriminate]. }
+  assert (Hpe : ok_prefix (rd_root rd) path_EDGES (names_or en (rd_enames rd)) = names_or en (rd_enames rd)).
+  { cbn [step snd sm_init rs_rd rs_ep] in Hre. eapply read_loop_ok_surj.
+    destruct (snd (read_loop (rd_root rd) path_EDGES (names_or en (rd_enames rd)) [])) as [[]|] eqn:E; [exact E | discriminate]. }
+  rewrite Hpn, Hpe. reflexivity.
+Qed.
+
+(* no condition on the name lists: repeated names included *)
+Theorem sm_oneshot_gen rd nn en nm em g :
+  build rd nn en nm em = Ok g <->
+  results (sm_init rd) [RNode nn; REdge en; Build nm em] = [Ok None; Ok None; Ok (Some g)].
+Proof.
+  rewrite build_names_or, build_dedupe. split.
+  - intro H. rewrite oneshot_core_gen; [rewrite H; reflexivity| |].
+    + apply build_dedupe in H. unfold build in H.
+      destruct (mapM (read_prop (rd_root rd) path_NODES) (names_or nn (rd_nnames rd))) as [zn|e] eqn:E; [|discriminate].
+      cbn [step snd sm_init rs_rd rs_np]. rewrite read_loop_res, (mapM_h_of_read _ _ _ _ E). reflexivity.
+    + apply build_dedupe in H. unfold build in H.
+      destruct (mapM (read_prop (rd_root rd) path_NODES) (names_or nn (rd_nnames rd))) as [zn|e]; [|discriminate].
+      destruct (mapM (read_prop (rd_root rd) path_EDGES) (names_or en (rd_enames rd))) as [ze|e] eqn:E; [|discriminate].
+      cbn [step snd sm_init rs_rd rs_ep]. rewrite read_loop_res, (mapM_h_of_read _ _ _ _ E). reflexivity.
+  - intro H.
+    assert (H1 : snd (step (sm_init rd) (RNode nn)) = Ok None) by (rewrite !results_cons in H; injection H as Ha _ _; exact Ha).
+    assert (H2 : snd (step (sm_init rd) (REdge en)) = Ok None).
+    { rewrite !results_cons in H. injection H as _ Hb _.
+      rewrite (read_result_indep _ (fst (step (sm_init rd) (RNode nn))) (REdge en)) by (rewrite ?step_rd; reflexivity). exact Hb. }
+    rewrite (oneshot_core_gen rd nn en nm em H1 H2) in H. injection H as Hg.
+    match type of Hg with rmap Some ?b = _ => destruct b as [g'|e]; cbn [rmap] in Hg; [inversion Hg; reflexivity | discriminate] end.
+Qed.
+
+Theorem read_to_memory_sm_eq_gen k s v nn en g :
+  read_to_memory k s v nn en = Ok g <-> read_to_memory_sm k s v nn en = Ok g.
+Proof.
+  unfold read_to_memory, read_to_memory_sm.
+  destruct (reader_init k s v) as [rd|e] eqn:Ei; cbn [rbind]; [|tauto].
+  rewrite (sm_oneshot_gen rd nn en None None g). rewrite !results_cons. cbn [results run].
+  cbn [step snd fst]. apply compose_results.
+Qed.
